@@ -250,3 +250,68 @@ func VerifC07NoAliasingAcrossRequests() {
 	vrt.Assert("C07.alias.first-message-still-has-its-own-bytes", string(a.Payload) == bodyA && a.Headers["X-A"] == ha)
 	vrt.Assert("C07.alias.second-message-has-its-own-bytes", string(b.Payload) == bodyB && b.Headers["X-A"] == hb)
 }
+
+// verif:harness props=C07,C08 tier=quick weight=15
+// verif:bounds one ingress request through the real ServeHTTP on a route with forward auth and copy_headers {x-user, X-Role}: the auth service (stubbed client) answers any status; its response carries X-User (fixed value), X-Role present or absent; the client request carries X-A (1 symbolic byte) and optionally its own X-User / x-user / X-Role with 1 symbolic byte; max_headers default or tight
+func VerifC07ForwardAuthCopyHeadersAreTheAuthServices() {
+	w := &hRW{}
+	st := &hStore{w: w, neverFail: true}
+	s := NewServer(st)
+	s.ResolveRoute = func(r *http.Request, p string) (string, bool) { return "/r", true }
+	s.TargetsFor = func(string) []string { return []string{"t1"} }
+	fa := NewForwardAuth("https://auth.internal/check")
+	fa.Client = &http.Client{}
+	fa.CopyHeaders = []string{"x-user", "X-Role"}
+	s.ForwardAuthFor = func(string) *ForwardAuth { return fa }
+	tight := vrt.Bool("max-headers-tight")
+	s.LimitsFor = func(string) (int64, int) {
+		if tight {
+			return 0, 16
+		}
+		return 0, 0
+	}
+	authHdr := http.Header{"X-User": []string{"u-123"}}
+	roleFromAuth := vrt.Bool("auth-service-sends-x-role")
+	if roleFromAuth {
+		authHdr["X-Role"] = []string{"ro"}
+	}
+	vrt.HTTPResponseHeader(authHdr)
+	xa := vrt.StringN("x-a", 1)
+	vrt.Assume(hTrimmed(xa))
+	h := http.Header{"X-A": []string{xa}}
+	spoof := vrt.Choose("client-sends-the-copy-header-itself", 4)
+	sv := vrt.StringN("spoofed-value", 1)
+	vrt.Assume(hTrimmed(sv))
+	clientRole := false
+	switch spoof {
+	case 1:
+		h["X-User"] = []string{sv}
+	case 2:
+		h["x-user"] = []string{sv}
+	case 3:
+		h["X-Role"] = []string{sv}
+		clientRole = true
+	}
+	r := &http.Request{Method: "POST", URL: &url.URL{Path: "/in"}, Header: h, Body: io.NopCloser(strings.NewReader("b")), RemoteAddr: "1.2.3.4:5", Host: "h"}
+	s.ServeHTTP(w, r)
+	if len(st.envs) == 0 {
+		vrt.Assert("C08.copyhdr.refused-without-enqueue-is-not-a-202", w.status != 202)
+		return
+	}
+	vrt.Cover("copyhdr.accepted")
+	code := vrt.LastHTTPStatus()
+	vrt.Assert("C08.copyhdr.accepted-only-on-2xx-from-the-auth-service", code >= 200 && code <= 299 && w.status == 202)
+	got := st.envs[0].Headers
+	vrt.Assert("C07.copyhdr.stored-copy-header-is-the-auth-services-value", got["X-User"] == "u-123")
+	if roleFromAuth {
+		vrt.Assert("C07.copyhdr.every-configured-copy-header-of-the-answer-is-stored", got["X-Role"] == "ro")
+	} else if clientRole {
+		vrt.Assert("C07.copyhdr.received-header-kept-when-the-auth-service-sends-none", got["X-Role"] == sv)
+	}
+	vrt.Assert("C07.copyhdr.received-headers-kept", got["X-A"] == xa)
+	size := 0
+	for k, v := range got {
+		size += len(k) + len(v)
+	}
+	vrt.Assert("C12.copyhdr.stored-headers-within-max_headers", !tight || size <= 16)
+}
